@@ -563,6 +563,20 @@ def run(ctx):
         for k in range(nb):
             share = tuple(x // nb + (1 if k < x % nb else 0) for x in (nd, ns, ne))
             plan.append(("b%d" % k, corpus if k == 0 else [], share))
+        if not ctx.quick():
+            # model validation on a small space, exhaustively: every string over , ( ) a = and space up to length 7
+            # (every path through the Index loop, balanced or not); the theorems do not depend on it
+            import itertools
+
+            def small_chunk(lo, hi):
+                def make():
+                    it = itertools.chain.from_iterable(itertools.product(b",()a= ", repeat=n) for n in range(8))
+                    return [mk_case("parse", bytes(t), None, [{"name": b"A", "wants": [b"a"]}], "exhaustive_small")
+                            for t in itertools.islice(it, lo, hi)]
+                return make
+            nsmall = sum(6 ** n for n in range(8))
+            for lo in range(0, nsmall, BATCH):
+                plan.append(("exh%d" % (lo // BATCH), small_chunk(lo, min(nsmall, lo + BATCH)), (0, 0, 0)))
     keep = {}            # global case id -> description; only failing cases and samples are kept
     M, V = [], []
     total = nt_total = e2e_total = 0
@@ -570,7 +584,7 @@ def run(ctx):
     dist = None
     samples = []
     for bi, (tag, cases, share) in enumerate(plan):
-        cases = list(cases) + (gen_cases(ctx, *share) if any(share) else [])
+        cases = list(cases() if callable(cases) else cases) + (gen_cases(ctx, *share) if any(share) else [])
         by_id, m, v, nt = evaluate(ctx, binp, cases, tag)
         dist = distribution(cases, by_id, dist)
         for i, c in enumerate(cases):
@@ -638,4 +652,8 @@ def run(ctx):
                                     "(modelled, compared on every run)",
                                     "separators are the one-byte literals \",\" \" \" \"=\" the container passes to strings2",
                                     "argument lookups with an empty name (API misuse: Find(\"\") panics in formatArgType) are "
-                                    "compared with the model but not judged by the oracle"])
+                                    "compared with the model but not judged by the oracle",
+                                    "the app.Run stream includes optional by-name points without a target "
+                                    "(wire:\"zzname,required=false\"): on snapshot fc3b059 app.Run panicked there (nil *Meta "
+                                    "left in prop.Injects), repaired in /repo by 22935a9; corpus/C19/byname_optional_missing.json "
+                                    "keeps the witness"])
